@@ -115,3 +115,34 @@ func HarnessT_C11_OneOpWide() {
 	firstLens, nextLens, withLead = []int{0, 1, 2, 6, 7, 9, 10, 11}, []int{1, 2}, true
 	c11Check([]interface{}{anyOp("op0")})
 }
+
+// Harness_C11_EscapedLead: escape sequences in front of the first '/' of a pointer that names a protected member
+// ("~1/service": the text in front of the first '/' is ignored by the patch library, and "~1" would decode to '/'),
+// on the path or the from side of every operation kind.
+func Harness_C11_EscapedLead() {
+	verifrt.IgnorePanics()
+	lead := []string{"~1", "~0", "~1~0", "~01", "~1x"}[verifrt.Choose("lead", 5)]
+	target := []string{"/service", "/publicKey", "/service/0", "/publicKey/0/type"}[verifrt.Choose("target", 4)]
+	kinds := []string{"add", "remove", "replace", "test", "move", "copy"}
+	k := verifrt.Choose("kind", len(kinds))
+	op := map[string]interface{}{"op": kinds[k], "path": lead + target, "value": "new"}
+	if k >= 4 {
+		if verifrt.Choose("side", 2) == 0 {
+			op["from"] = "/name"
+		} else {
+			op["from"], op["path"] = lead+target, "/fresh"
+		}
+	}
+	doc := c11Doc()
+	p := patch.Patch{patch.ActionKey: patch.JSONPatch, patch.PatchesKey: []interface{}{op}}
+	if patchvalidator.Validate(p) != nil {
+		verifrt.Reach("refused-by-validation")
+		return
+	}
+	res, err := New().ApplyPatches(doc, []patch.Patch{p})
+	if err != nil {
+		return
+	}
+	verifrt.Assert(verifrt.JSONEqual(res["publicKey"], doc["publicKey"]), "a validated ietf-json-patch leaves the public keys unchanged")
+	verifrt.Assert(verifrt.JSONEqual(res["service"], doc["service"]), "a validated ietf-json-patch leaves the services unchanged")
+}
